@@ -1,7 +1,7 @@
 # Property table for mkmanifest.py (exec'd there). One claim() per property whose
 # rules are registered in the checker; everything else stays not_applicable.
 
-TB = "Trusted: go/types + go/ssa (x/tools v0.50.0) and the hand-confirmed rule tables in /verif/checker/rules_*.go; panic edges ignored; function values stored in struct fields assumed to be those assigned in the constructors."
+TB = "Trusted: go/types + go/ssa (x/tools v0.50.0) and the hand-confirmed rule tables in /verif/checker/rules_*.go; panic edges ignored; function values stored in struct fields assumed to be those assigned in the constructors; functions that are not in the confirmed-tree table (baseline_names.go) are analysed in line at their call sites (helper absorption, DESIGN.md §11), a function with a unique same-signature successor is taken as renamed."
 
 claim("C06",
       "SSA path/event dataflow on handleFlush, its cleanup closure, abortFileWriter, executeMergeGroup and processIngestRequest (ok/fail edges of store calls, non-nil provenance of answered values, mutation-before-validation may-facts)",
